@@ -2,6 +2,22 @@
 """Prints the markdown tables for DESIGN.md §7.3/7.4 from seeded/*/meta.json and mutants/RESULTS.md."""
 import glob, json, os, re
 HERE = os.path.dirname(os.path.dirname(os.path.abspath(__file__)))
+import sys
+COMPACT = "--compact" in sys.argv
+if COMPACT:
+    print("| seed | file(s) changed | what the change does | quick tier, seed 1 |")
+    print("|---|---|---|---|")
+    for d in sorted(glob.glob(os.path.join(HERE, "seeded", "C*"))):
+        try:
+            m = json.load(open(os.path.join(d, "meta.json")))
+        except Exception:
+            continue
+        v = m.get("verified", {})
+        summ = re.sub(r"\s+", " ", str(m.get("summary", ""))).replace("|", "/")
+        summ = summ[:170] + ("…" if len(summ) > 170 else "")
+        files = ", ".join(os.path.basename(f) for f in m.get("files", []))
+        print(f"| {os.path.basename(d)} | {files} | {summ} | {v.get('quick_check_result')} |")
+    sys.exit(0)
 print("| seed | property | what the change does (one line) | needs | quick tier |")
 print("|---|---|---|---|---|")
 for d in sorted(glob.glob(os.path.join(HERE, "seeded", "C*"))):
